@@ -228,7 +228,8 @@ def deps(ops, i):
 
 # ------------------------------------------------------------------------------------------------ execution
 class Env:
-    def __init__(self, ctx, W, tag, locate_dir):
+    def __init__(self, ctx, W, tag, locate_dir, baseline=False):
+        self.baseline = baseline  # isolated baseline: re-use of an operator object is replaced by a fresh operator
         self.ctx = ctx
         self.W = W
         self.d, self.p, self.s0 = C.lib_world(ctx, W, tag=tag)
@@ -256,11 +257,26 @@ def exec_op(env, ops, i, store):
         if st is None or other is None or op is None:
             return ("skipped",)
         store[i] = {"op": op}
+        if env.baseline:
+            # what the call must return: a fresh operator applied to the state, no history
+            try:
+                r = lib.Operator(d.actions[o["call"][0]], d, list(o["call"][1]), p.objects).apply(
+                    st.copy(), allow_inapplicable_actions=o["flags"][0], skip_validation=o["flags"][1])
+            except Exception as e:
+                return ("exc", type(e).__name__)
+            store[i]["state"] = r
+            return ("state", C.abs_state(r, "Operator.apply", ID))
         try:
+            # the fresh state's containers are prepared first, so that the State object created right after the
+            # temporary is released is the very next allocation of its size (it then re-uses the temporary's address
+            # whatever the heap looked like before: the history is reproducible in a fresh interpreter)
+            c = st.copy()
+            preds, fl, is_init = c.state_predicates, c.state_fluents, c.is_init
+            del c
             tmp = other.copy()
             op.is_applicable(tmp)
             del tmp
-            fresh = st.copy()
+            fresh = lib.State(preds, fl, is_init)
             r = op.apply(fresh, allow_inapplicable_actions=o["flags"][0], skip_validation=o["flags"][1])
         except schedmod.SimCancel:
             raise
@@ -279,6 +295,8 @@ def exec_op(env, ops, i, store):
             op = ent.get("op") if ent else None
             if op is None:
                 return ("skipped",)
+            if env.baseline:
+                op = lib.Operator(d.actions[o["call"][0]], d, list(o["call"][1]), p.objects)
         store[i] = {"op": op}
         try:
             r = op.apply(st, allow_inapplicable_actions=o["flags"][0], skip_validation=o["flags"][1])
@@ -530,7 +548,7 @@ def run(ctx):
             res = []
             for i in range(len(ops)):
                 ctx.new_epoch()
-                env = Env(ctx, W, f"-b{ti}-{i}", ddir)
+                env = Env(ctx, W, f"-b{ti}-{i}", ddir, baseline=True)
                 store = {}
                 for j in deps(ops, i):
                     exec_op(env, ops, j, store)
